@@ -9,6 +9,8 @@ import (
 	"strings"
 
 	"golang.org/x/tools/go/ssa"
+
+	"verif/engine/smt"
 )
 
 // Harness describes one harness function and its directives.
@@ -89,6 +91,15 @@ func (p *Program) Harnesses(prefix string) []*Harness {
 	sort.Slice(hs, func(i, j int) bool { return hs[i].Name < hs[j].Name })
 	return hs
 }
+
+// EnableCross starts a second solver used to re-decide discharged assertions.
+func (w *Worker) EnableCross(kind string, timeoutMs int) {
+	w.Cross = smt.NewSolver(kind, timeoutMs, 0)
+}
+
+func (w *Worker) CrossStats() (checked, disagree int) { return w.CrossChecked, w.CrossDisagree }
+
+func (w *Worker) Fallbacks() int { return w.Sol.NFallback }
 
 func (w *Worker) BytesSent() int64 { return w.Sol.BytesSent }
 
